@@ -86,6 +86,14 @@ def judge_common(ctx, t, src, tgt, where):
     a = t.aligned_source().points
     if tx.maxdiff(a, y) > 1e-9 * scale:
         ctx.fail("aligned_source_is_not_the_transform_applied_to_the_source", cls=cls, mech=where)
+    # ... however the application is split into batches, and whatever the dtype of the source coordinates
+    bs = 1 + (len(src) * 7 + 3) % max(1, len(src) - 1)
+    try:
+        yb = np.asarray(t.apply(src.copy(), batch_size=bs))
+        if tx.maxdiff(a, yb) > 1e-9 * scale:
+            ctx.fail("aligned_source_is_not_the_transform_applied_to_the_source", cls=cls, mech=where + ":batched:" + src.dtype.kind, err=tx.maxdiff(a, yb))
+    except Exception as e:
+        ctx.fail("alignment_cannot_be_applied_to_its_own_source", cls=cls, mech=where + ":batched:" + type(e).__name__)
     e_got = float(t.alignment_error())
     e_ref = float(np.linalg.norm(y - tgt))
     if abs(e_got - e_ref) > 1e-8 * scale:
@@ -167,6 +175,33 @@ def family_member(rng, kind, d, opts):
     return gen.well_conditioned(rng, d), rng.uniform(-5, 5, d)
 
 
+def disturb(ctx, rng, t, src, tgt, opts, fold_free=False):
+    """History: objects derived from the alignment (a copy, an instance from a parameter vector) are changed afterwards -
+    the alignment itself still is the fit of its source to its own target."""
+    import menpo.shape as ms
+    if rng.random() < 0.5:
+        return
+    ctx.bump("alignments_judged_again_after_a_derived_object_changed")
+    with taps.quiet():
+        c = t.copy()
+        p = np.asarray(tgt, dtype=float)
+        p = p + rng.normal(scale=0.02 if fold_free else 0.5, size=p.shape) + (0 if fold_free else rng.uniform(-3, 3, p.shape[1]))
+        ok = True
+        if fold_free:
+            tl = np.asarray(t.source.trilist)
+            ok = bool((np.sign(gen.tri_area2(t.source.points, tl)) == np.sign(gen.tri_area2(p, tl))).all())
+        if ok:
+            c.set_target(ms.PointCloud(p))
+        try:
+            v = np.array(t.as_vector())
+            t.from_vector(v * 1.01 + 0.01)
+            c.from_vector_inplace(v * 0.99 - 0.01) if hasattr(c, "from_vector_inplace") else c._from_vector_inplace(v * 0.99 - 0.01)
+        except Exception:
+            pass
+    judge_common(ctx, t, np.asarray(src), np.asarray(tgt, dtype=float), "after_a_copy_changed")
+    align.judge_family(ctx, t, np.asarray(src, dtype=float), np.asarray(tgt, dtype=float), opts, "after_a_copy_changed")
+
+
 def w_align(ctx, rng, i):
     import menpo.transform as mt
     import menpo.shape as ms
@@ -213,6 +248,7 @@ def w_align(ctx, rng, i):
             okfold = bool((np.sign(a2) == np.sign(b2)).all())
         if okfold:
             t.set_target(new)
+        disturb(ctx, rng, t, t.source.points.copy(), t.target.points.copy(), align.SHADOW.get(id(t), (None, {}))[1], fold_free=(kind != "ThinPlateSplines"))
         # history: asking for the inverse (as every landmark-carrying image warp does) must leave the alignment intact
         inv = t.pseudoinverse()
         judge_common(ctx, inv, t.target.points.copy(), t.source.points.copy(), "inverse")
@@ -224,6 +260,11 @@ def w_align(ctx, rng, i):
             # any overall size and position: unit-normalised shapes, pixel coordinates of large images, far from the origin
             sc = 10.0 ** rng.uniform(-2, 3)
             src = src * sc + rng.uniform(-1, 1, d) * sc * 10.0 * 10.0 ** rng.uniform(0, 1.3)     # offset up to ~20x the extent (conditioning stays moderate)
+        int_src = bool(rng.random() < 0.25)
+        if int_src:
+            # landmark coordinates are often integer pixel positions: integer-typed sources are ordinary input
+            src = np.round(src * (3.0 if np.abs(src).max() < 100 else 1.0)).astype(np.int64)
+            ctx.bump("integer_typed_sources")
         L, tr = family_member(rng, kind, d, opts)
         tgt = src @ L.T + tr
         if noise:
@@ -247,6 +288,7 @@ def w_align(ctx, rng, i):
             rtol = max(1e-7, 1e-13 * cond ** 2)
             if e > rtol * max(1.0, np.abs(tr).max(), np.abs(tgt).max()) or t.alignment_error() > rtol * max(1.0, np.abs(tgt).max()) * np.sqrt(len(src)):
                 ctx.fail("family_member_not_recovered", cls=kind, mech=str(sorted(opts.items())), err=float(e))
+        disturb(ctx, rng, t, src, tgt, opts)
         # and a retarget with another synthesised target
         L2, tr2 = family_member(rng, kind, d, opts)
         tgt2 = src @ L2.T + tr2 + (rng.normal(scale=noise, size=src.shape) if noise else 0)
